@@ -68,7 +68,7 @@ def rebasePath (uPath docPath : String) : String :=
 /-- `rebase(ref, v, notEqual)`; the result `Ref` is `MustCreateRef(newBase.String())`. -/
 def rebase (ref : Ref) (v : URL) (notEqual : Bool) : Ref × Bool :=
   let u := ref.url
-  if u.scheme ≠ v.scheme ∨ u.host ≠ v.host then (ref, false)
+  if u.scheme ≠ v.scheme ∨ u.host ≠ v.host ∨ u.query ≠ v.query then (ref, false)
   else
     let newPath := rebasePath u.path v.path
     if notEqual ∧ newPath = "" ∧ u.fragment = "" then (ref, false)
